@@ -114,18 +114,50 @@ def cond_text(c: dict, top: bool = True) -> str:
     raise core.MachineryError(f"cannot render condition {c}")
 
 
+def is_match(c: dict) -> bool:
+    return c["kind"].startswith("m_")
+
+
+def pattern_text(c: dict) -> str:
+    """Source text of a `case` pattern."""
+    k = c["kind"]
+    if k in ("m_value", "m_singleton"):
+        return codec.obj_literal(c["lits"][0])
+    if k == "m_class":
+        return f"{c['cls'][0]}()"
+    if k == "m_or":
+        return " | ".join(pattern_text(s) for s in c["subs"])
+    raise core.MachineryError(f"cannot render pattern {c}")
+
+
+_holds_cache: dict[str, list[int]] = {}
+
+
 def holds_vector(c: dict) -> list[int]:
     """What CPython evaluates the condition to on each object: 0 false, 1 true, 2 raises."""
-    code = compile(cond_text(c), "<cond>", "eval")
+    key = core.canon(c)
+    if key in _holds_cache:
+        return _holds_cache[key]
     ns = namespace()
+    if is_match(c):
+        # the real match statement decides
+        local: dict[str, Any] = {}
+        src = f"def _m(x):\n    match x:\n        case {pattern_text(c)}:\n            return True\n        case _:\n            return False\n"
+        exec(compile(src, "<pattern>", "exec", dont_inherit=True), ns, local)
+        fn = local["_m"]
+        test = lambda o: fn(o)  # noqa: E731
+    else:
+        code = compile(cond_text(c), "<cond>", "eval")
+        test = lambda o: eval(code, ns, {"x": o})  # noqa: E731
     out = []
     if not OBJS:
         raise core.MachineryError("narrow_common.set_universe was not called")
     for o in OBJS:
         try:
-            out.append(1 if eval(code, ns, {"x": o}) else 0)
+            out.append(1 if test(o) else 0)
         except Exception:
             out.append(2)
+    _holds_cache[key] = out
     return out
 
 
@@ -141,7 +173,8 @@ def _predicate(pred: dict, varname, ctx):
 
     p = pred["p"]
     if p == "assignable":
-        return P.IsAssignablePredicate(val(pred["pat"]), ctx, positive_only=bool(pred["ponly"]))
+        kw = {"runtime_classes": True} if pred.get("rt") else {}  # keyword introduced by proposed/C02-fix-1.diff
+        return P.IsAssignablePredicate(val(pred["pat"]), ctx, positive_only=bool(pred["ponly"]), **kw)
     if p == "equals":
         return P.EqualsPredicate(codec.obj_to_py(pred["lits"][0]), ctx, use_is=bool(pred["useis"]))
     if p == "in":
@@ -249,6 +282,21 @@ def _has_unpacked(t: dict) -> bool:
     return False
 
 
+def _mentions_nonetype(t: dict) -> bool:
+    k = t["k"]
+    if k in ("typed", "generic") and t["c"] == "NoneType":
+        return True
+    if k == "seq":
+        return any(_mentions_nonetype(m["t"]) for m in t["ms"])
+    if k == "generic":
+        return any(_mentions_nonetype(a) for a in t["args"])
+    if k == "union":
+        return any(_mentions_nonetype(m) for m in t["ms"])
+    if k == "subclass":
+        return _mentions_nonetype(t["t"])
+    return False
+
+
 def visitor_capable(case: dict) -> Optional[str]:
     """The annotation text if the case can be written as `def f(x: T)` with the condition in source form."""
     c = case["c"]
@@ -262,6 +310,8 @@ def visitor_capable(case: dict) -> Optional[str]:
         return None
     if _has_unpacked(case["v"]):
         return None  # `*tuple[T, ...]` inside a parameter annotation is decoded differently (C13's subject)
+    if _mentions_nonetype(case["v"]):
+        return None  # every spelling of the class NoneType in an annotation denotes the literal None
     try:
         return codec.term_to_annotation(case["v"])
     except core.MachineryError:
@@ -272,15 +322,20 @@ def observe_visitor_chunk(arg) -> list[dict]:
     """One generated module per chunk: for each case
         def f_i(x: T) -> None:
             x
-            if <cond>:
-                x
-            else:
-                x
+            if <cond>:            |   match x:
+                x                 |       case <pattern>:
+            else:                 |           x
+                x                 |       case _:
+                                  |           x
     and the inferred value of the three `x` Name nodes (annotate=True)."""
     chunk = arg
     lines = [PRELUDE.rstrip("\n")]
     for i, (_tid, case, anno) in enumerate(chunk):
-        lines += [f"def f_{i}(x: {anno}) -> None:", "    x", f"    if {cond_text(case['c'])}:", "        x", "    else:", "        x"]
+        if is_match(case["c"]):
+            lines += [f"def f_{i}(x: {anno}) -> None:", "    x", "    match x:", f"        case {pattern_text(case['c'])}:", "            x",
+                      "        case _:", "            x"]
+        else:
+            lines += [f"def f_{i}(x: {anno}) -> None:", "    x", f"    if {cond_text(case['c'])}:", "        x", "    else:", "        x"]
     src = "\n".join(lines) + "\n"
     mod = pyz.make_module(src)
     fails, _visitor, tree = pyz.check_source(src, module=mod, annotate=True, want_visitor=True)
@@ -291,15 +346,20 @@ def observe_visitor_chunk(arg) -> list[dict]:
         fn = funcs[f"f_{i}"]
         lo, hi = fn.lineno, fn.body[-1].end_lineno
         mine = [f for f in bad if lo <= (f[1] or 0) <= hi]
+        text = ("match x: case " + pattern_text(case["c"])) if is_match(case["c"]) else ("if " + cond_text(case["c"]))
         if mine:
-            raise core.MachineryError(f"generated function for {case['v']} / {cond_text(case['c'])} raised unexpected diagnostics {mine}")
+            raise core.MachineryError(f"generated function for {case['v']} / {text} raised unexpected diagnostics {mine}")
         try:
             decl = fn.body[0].value.inferred_value
             if_node = fn.body[1]
-            pos = if_node.body[0].value.inferred_value
-            neg = if_node.orelse[0].value.inferred_value
+            if is_match(case["c"]):
+                pos = if_node.cases[0].body[0].value.inferred_value
+                neg = if_node.cases[1].body[0].value.inferred_value
+            else:
+                pos = if_node.body[0].value.inferred_value
+                neg = if_node.orelse[0].value.inferred_value
         except AttributeError as exc:
-            raise core.MachineryError(f"no inferred_value recorded for {anno} / {cond_text(case['c'])}: {exc}")
+            raise core.MachineryError(f"no inferred_value recorded for {anno} / {text}: {exc}")
         at_if = {f[0] for f in pyz.brief(fails) if f[1] == if_node.lineno}
         diag = sorted(at_if & {"type_always_true", "value_always_true"})
         # a call in the condition was rejected (e.g. len(x) for x: int): pyanalyze then derives no constraint from it
@@ -308,6 +368,6 @@ def observe_visitor_chunk(arg) -> list[dict]:
             "tid": tid, "kind": "narrow", "route": "visitor", "v": case["v"], "c": case["c"],
             "decl": codec.value_to_term(decl), "pos": codec.value_to_term(pos), "neg": codec.value_to_term(neg),
             "holds": holds_vector(case["c"]), "diag": diag, "callerr": callerr,
-            "src": f"def f(x: {anno}): if {cond_text(case['c'])}: ...",
+            "src": f"def f(x: {anno}): {text}: ...",
         })
     return out
